@@ -214,7 +214,7 @@ class Extractor:
         for pyname, keys in by_mod.items():
             mod = self.modules[pyname]
             lean_mod = "Generated." + cfg.LEAN_MODULE_NAMES[pyname]
-            imports = ["Generated.Consts"]
+            imports = ["Generated.Consts"] + (["Spec.Records"] if cfg.STRUCTS.get(pyname) else [])
             for key in keys:
                 for callee, _ in self.calls.get(key, []):
                     if callee[0] != pyname:
